@@ -17,6 +17,9 @@ tokens are `key=value`:
        Q.<ts>.<m>.<payload>       audio packet with an arbitrary payload
        X.<rtcp>                   packet on the audio control channel
   order=*|<i>+<j>+…               arrival order as positions into the packet list
+  sub=<i>:<payload>+<j>:<payload>… corruption in place: the payload of the packet at position i is
+                                  replaced (same channel, sequence number and timestamp); the item
+                                  the packet belongs to no longer counts as well-formed (contain)
   mode=exact|contain              judge: exact C06 predicate / containment (the units of the
                                   well-formed items must appear, in order, among the frames)
   skip=<k>                        the first k video items are a parameter-set prefix, not judged
@@ -138,6 +141,20 @@ def statusChar : Status → Char
 
 def intStr (i : Int) : String := if i < 0 then s!"-{i.natAbs}" else s!"{i.natAbs}"
 
+/-- `sub=<pos>:<hex>+…` -/
+def parseSubs (s : String) : Option (List (Nat × Bytes)) :=
+  (splitNE s '+').mapM (fun t =>
+    match t.splitOn ":" with
+    | [p, h] => do let n ← p.toNat?; let b ← hexToBytes h; pure (n, b)
+    | _ => none)
+
+def applySubs (subs : List (Nat × Bytes)) : Nat → List WPkt → List WPkt
+  | _, [] => []
+  | i, w :: ws =>
+    (match subs.find? (fun s => s.1 = i) with
+      | some (_, b) => { w with pkt := { w.pkt with payload := b } }
+      | none => w) :: applySubs subs (i + 1) ws
+
 structure Setup where
   cfg : Cfg
   codec : VCodec
@@ -150,13 +167,20 @@ structure Setup where
   built : Built
   order : List Nat
   ordered : List WPkt
+  /-- positions whose payload was replaced (`sub=`) -/
+  subs : List Nat := []
+  /-- the arrival order restricted to the packets of the video RTP stream (channel 0): audio and
+      RTCP travel in their own streams / channels, interleaving them is not reordering -/
+  vorder : List Nat := []
 
 def parseSetup (ts : List String) : Option Setup := do
   let codec := if kv ts "codec" = some "h265" then VCodec.h265 else VCodec.h264
   let cfg := if kv ts "cfg" = some "pinned" then pinnedCfg else genCfg
   let pl := match codec with | .h264 => payloads264 | .h265 => payloads265
   let elems ← (splitNE ((kv ts "s").getD "") ',').mapM parseElem
-  let b := build pl (UInt16.ofNat (kvNat ts "seq0" 0)) (UInt16.ofNat (kvNat ts "aseq0" 0)) 0 elems
+  let b0 := build pl (UInt16.ofNat (kvNat ts "seq0" 0)) (UInt16.ofNat (kvNat ts "aseq0" 0)) 0 elems
+  let subs ← parseSubs ((kv ts "sub").getD "")
+  let b := { b0 with pkts := applySubs subs 0 b0.pkts }
   let order ← match kv ts "order" with
     | none | some "*" => some (List.range b.pkts.length)
     | some o => (splitNE o '+').mapM (·.toNat?)
@@ -170,7 +194,8 @@ def parseSetup (ts : List String) : Option Setup := do
   let d0 : DemuxSt := { codec := codec, hasAac := kv ts "aac" = some "1", v := v, abase := UInt32.ofNat (kvNat ts "abase" 0) }
   let arr := b.pkts.toArray
   pure { cfg, codec, pl, rate := kvNat ts "rate" 90000, arate := kvNat ts "arate" 44100, d0, ok, ko, built := b,
-         order, ordered := order.filterMap (fun i => arr[i]?) }
+         order, ordered := order.filterMap (fun i => arr[i]?), subs := subs.map (·.1),
+         vorder := order.filter (fun i => match arr[i]? with | some w => w.ch = 0 | none => false) }
 
 def runAll (cfg : Cfg) (spsOk : Bytes → Bool) : DemuxSt → List WPkt → DemuxSt × List Frame × List Status
   | d, [] => (d, [], [])
@@ -239,9 +264,26 @@ def zeroTs (z : Bool) : Item → Item
   | .agg ts m ns => .agg (if z then 0 else ts) m ns
   | .frag ts m n c => .frag (if z then 0 else ts) m n c
 
-def wraps : List (UInt32 × Int) → Bool
-  | (t1, _) :: (t2, p2) :: r => ((tsDiff t2 t1 > 0 && t2 < t1) || (tsDiff t2 t1 < 0 && t2 > t1)) || wraps ((t2, p2) :: r)
-  | _ => false
+/-- the step from t1 to t2 crosses the 2^32 boundary of the RTP timestamp -/
+def pairWraps (t1 t2 : UInt32) : Bool := (tsDiff t2 t1 > 0 && t2 < t1) || (tsDiff t2 t1 < 0 && t2 > t1)
+
+/-- the adjacent pairs of frames that violate the presentation-time clause -/
+def ptsFails (rate : Nat) (tol : Int) : List (UInt32 × Int) → List (UInt32 × UInt32)
+  | (t1, p1) :: (t2, p2) :: r =>
+    (if ptsHolds rate tol [(t1, p1), (t2, p2)] then [] else [(t1, t2)]) ++ ptsFails rate tol ((t2, p2) :: r)
+  | _ => []
+
+/-- class of a presentation-time verdict.  The two open findings explain exactly this much: a pair
+    that crosses the timestamp wrap (`rtp-timestamp-wrap`), and at most ONE further pair per media
+    stream that has an RTCP packet on its control channel (`sr-rebase`: the clock is re-based once,
+    while it is still 0).  Anything beyond that is `pts-mismatch`. -/
+def ptsClass (rate : Nat) (tol : Int) (hasCtl : Bool) (l : List (UInt32 × Int)) : String :=
+  let fails := ptsFails rate tol l
+  let other := fails.filter (fun (t1, t2) => !pairWraps t1 t2)
+  if fails.isEmpty then "ok"
+  else if other.isEmpty then "rtp-timestamp-wrap"
+  else if hasCtl && other.length ≤ 1 then "sr-rebase"
+  else "pts-mismatch"
 
 /-- `judge … obs=…` → verdict of the property predicate on the observed frames -/
 def judgeOp (ts : List String) : String :=
@@ -269,14 +311,15 @@ def judgeOp (ts : List String) : String :=
         if contain then
           let expect := sp.flatMap (fun (it, p, n) =>
             match it with
-            | .frag .. => if (List.range n).all (fun k => su.order.contains (p + k)) then it.units else []
-            | _ => if su.order.contains p then it.units else [])
+            | .frag .. => if (List.range n).all (fun k => su.order.contains (p + k) && !su.subs.contains (p + k)) then it.units else []
+            | _ => if su.order.contains p && !su.subs.contains p then it.units else [])
           if strict && vpairs.any (fun o => !allUnits.contains o) then ⟨false, "invented-unit", "a frame is not a unit of the sender"⟩
           else if isSubseq expect vpairs then ⟨true, "ok", ""⟩
           else ⟨false, "good-unit-lost", s!"{expect.length} units of well-formed packets expected as a subsequence of {vpairs.length} frames"⟩
-        else judgeSpans sp su.order vpairs
+        else judgeSpans sp su.vorder vpairs
       -- audio: every arriving AAC packet hands on its AUs, in arrival order
       let aexpect := su.order.flatMap (fun i =>
+        if su.subs.contains i then [] else
         match su.built.aspans.find? (fun (_, _, p) => p = i) with
         | some (t, aus, _) => (aacUnits su.cfg.samplesPerFrame t aus).map (fun (t, a) => (zt t, digBytes (digest a)))
         | none => [])
@@ -285,15 +328,15 @@ def judgeOp (ts : List String) : String :=
         else if contain then (if isSubseq aexpect apairs then ⟨true, "ok", ""⟩ else ⟨false, "good-au-lost", ""⟩)
         else if apairs == aexpect then ⟨true, "ok", ""⟩
         else ⟨false, "au-mismatch", s!"{apairs.length} audio frames, expected {aexpect.length}"⟩
-      let tol : Int := 2
+      -- tolerance: each observed PTS is the float64 product truncated, within 1 ns of the exact
+      -- rational `conv`; `conv a − conv b` and `conv (a − b)` differ by < 2 when a, b have the same
+      -- sign (truncation toward zero): 1 + 1 + 1 < 4
+      let tol : Int := 4
       let vp := vobs.map (fun o => (o.ts, o.pts))
       let ap := aobs.map (fun o => (o.ts, o.pts))
-      let hasCtl := su.built.pkts.any (fun w => w.ch = 1 || w.ch = 3)
-      let pcls (rate : Nat) (l : List (UInt32 × Int)) : String :=
-        if ptsHolds rate tol l then "ok"
-        else if hasCtl then "sr-rebase"
-        else if wraps l then "rtp-timestamp-wrap" else "pts-mismatch"
-      s!"video={vv.cls} audio={av.cls} vpts={pcls su.rate vp} apts={pcls su.arate ap} detail={(vv.detail ++ "|" ++ av.detail).replace " " "_"}"
+      let vctl := su.ordered.any (fun w => w.ch = 1)
+      let actl := su.ordered.any (fun w => w.ch = 3)
+      s!"video={vv.cls} audio={av.cls} vpts={ptsClass su.rate tol vctl vp} apts={ptsClass su.arate tol actl ap} detail={(vv.detail ++ "|" ++ av.detail).replace " " "_"}"
 
 def handle : List String → String
   | "run" :: ts => run ts
